@@ -34,10 +34,9 @@ META = {
                     "with that mean (library)",
                     "the statistical statement follows from interval membership: the intervals are consecutive partial sums of the "
                     "propensities, so an event is selected with probability a/a0 (argument on paper, not machine-checked)",
-                    "that an event is always applied when a0 > 0 is proved over the reals for the grid class (a0 and the per-cell sums "
-                    "are the sums of the channels: ghost partial sums through ComputePropensities and DrawAndApplyEvent); with "
-                    "doubles the last interval can be missed by rounding (A1), and the graph class has this part only in the "
-                    "concrete step battery"],
+                    "that an event is always applied when a0 > 0 is proved over the reals for both Gillespie classes (a0 and the "
+                    "per-cell sums are the sums of the channels: ghost partial sums through ComputePropensities and "
+                    "DrawAndApplyEvent); with doubles the last interval can be missed by rounding (A1)"],
 }
 
 GILL = ["Gillespie3D", "GillespieGraph"]
@@ -479,10 +478,15 @@ def compute_nevt_case(cls):
 
 
 def _sum_ghosts(I, c, o, x0):
-    """ghost partial sums of the propensities of one state (grid layout): AR(i, r) over reactions, AD(i, k) over the
-    diffusion channels k = s*6+n (0 towards a missing neighbour), TOT(i) over cells; unfoldings are given as ground instances"""
+    """ghost partial sums of the propensities of one state: AR(i, r) over reactions, AD(i, k) over the diffusion channels
+    k = s*W(i)+n with W = 6 on a grid (0 towards a missing neighbour) and W(i) = number of neighbours on a graph, TOT(i) over
+    cells; unfoldings are given as ground instances"""
     f = o.fields
     S, R, M = f["n_species"], f["n_reactions"], f["n_meshes"]
+    grid = K.is_grid(o.cls)
+
+    def W(i):
+        return z3.IntVal(6) if grid else z3.Select(f["mesh_neighbor_n"].arr, i)
     XA = z3.ArraySort(z3.IntSort(), z3.RealSort())
     RP = z3.Function("reaction_propensity", XA, z3.IntSort(), z3.IntSort(), z3.RealSort())
     DP = z3.Function("diffusion_propensity", XA, z3.IntSort(), z3.IntSort(), z3.IntSort(), z3.RealSort())
@@ -494,16 +498,19 @@ def _sum_ghosts(I, c, o, x0):
     c.assume(TOT(0) == 0)
 
     def dpv(i, s, n):
+        if not grid:
+            return DP(x0, i, s, n)
         return z3.If(z3.Select(f["mesh_neighbors"].arr, i * 6 + n) != -1, DP(x0, i, s, n), 0)
 
     def unfold_r(i, r):
         return z3.Implies(r >= 0, AR(i, r + 1) == AR(i, r) + RP(x0, i, r))
 
     def unfold_d(i, s, n):
-        return z3.Implies(z3.And(s >= 0, n >= 0, n < 6), AD(i, s * 6 + n + 1) == AD(i, s * 6 + n) + dpv(i, s, n))
+        return z3.Implies(z3.And(s >= 0, n >= 0, n < W(i)), AD(i, s * W(i) + n + 1) == AD(i, s * W(i) + n) + dpv(i, s, n))
 
     def unfold_t(i):
-        return z3.Implies(i >= 0, TOT(i + 1) == TOT(i) + AR(i, R) + AD(i, S * 6))
+        return z3.Implies(i >= 0, TOT(i + 1) == TOT(i) + AR(i, R) + AD(i, S * W(i)))
+    unfold_t.W = W
     return RP, DP, AR, AD, TOT, dpv, unfold_r, unfold_d, unfold_t
 
 
@@ -539,10 +546,12 @@ def totals_case(cls="Gillespie3D"):
         def L(fr, nm):
             return I.local_by_name(fr, nm)
 
+        W = unfold_t.W
+
         def cell_done(fr):
             ff = fr.this.fields
             i = L(fr, "i")
-            return z3.Implies(i > i0, z3.And(z3.Select(ff["mesh_a0r"].arr, i0) == AR(i0, R), z3.Select(ff["mesh_a0d"].arr, i0) == AD(i0, S * 6)))
+            return z3.Implies(i > i0, z3.And(z3.Select(ff["mesh_a0r"].arr, i0) == AR(i0, R), z3.Select(ff["mesh_a0d"].arr, i0) == AD(i0, S * W(i0))))
 
         def inv1(I_, fr, stage):
             ff = fr.this.fields
@@ -566,7 +575,7 @@ def totals_case(cls="Gillespie3D"):
                 n = L(fr, "n") if level == 4 else z3.IntVal(0)
                 if stage == "assume":
                     c.assume(z3.And(unfold_d(i, s_, n), unfold_t(i)))
-                k = s_ * 6 + n
+                k = s_ * W(i) + n
                 return [ff["a0"] == TOT(i) + AR(i, R) + AD(i, k), z3.Select(ff["mesh_a0r"].arr, i) == AR(i, R),
                         z3.Select(ff["mesh_a0d"].arr, i) == AD(i, k), cell_done(fr)]
             return inv
@@ -576,7 +585,7 @@ def totals_case(cls="Gillespie3D"):
         I.call(fn, o, [], fn, Frame("top"))
         ff = o.fields
         c.oblige(P + "/a0-is-the-sum-over-all-channels", ff["a0"] == TOT(M))
-        c.oblige(P + "/cell-sums", z3.And(z3.Select(ff["mesh_a0r"].arr, i0) == AR(i0, R), z3.Select(ff["mesh_a0d"].arr, i0) == AD(i0, S * 6)))
+        c.oblige(P + "/cell-sums", z3.And(z3.Select(ff["mesh_a0r"].arr, i0) == AR(i0, R), z3.Select(ff["mesh_a0d"].arr, i0) == AD(i0, S * W(i0))))
 
     return Case("%s/ComputePropensities-totals" % cls, run, functions=["%s::ComputePropensities" % cls], conc=False, max_paths=3000)
 
@@ -601,7 +610,8 @@ def draw_complete_case(cls="Gillespie3D"):
         I.read_facts = dict(I.read_facts)
         I.elem_facts = dict(I.elem_facts)
         I.read_facts["mesh_a0r"] = lambda I_, o_, fr, e, idx: z3.And(e == AR(idx, R), e >= 0)
-        I.read_facts["mesh_a0d"] = lambda I_, o_, fr, e, idx: z3.And(e == AD(idx, S * 6), e >= 0)
+        W = unfold_t.W
+        I.read_facts["mesh_a0d"] = lambda I_, o_, fr, e, idx: z3.And(e == AD(idx, S * W(idx)), e >= 0)
 
         def ar_read(I_, o_, fr, e, idx):
             i, j = I_.local_by_name(fr, "i"), I_.local_by_name(fr, "j")
@@ -611,7 +621,8 @@ def draw_complete_case(cls="Gillespie3D"):
             i, j, n = I_.local_by_name(fr, "i"), I_.local_by_name(fr, "j"), I_.local_by_name(fr, "n")
             if n is None:
                 return None
-            return z3.Implies(idx == i * S * 6 + j * 6 + n, z3.And(e == dpv(i, j, n), e >= 0))
+            flat = (i * S * 6 + j * 6 + n) if K.is_grid(cls) else (j * W(i) + n)
+            return z3.Implies(idx == flat, z3.And(e == dpv(i, j, n), e >= 0))
         I.read_facts["mesh_ar"] = ar_read
         I.read_facts["mesh_ad"] = ad_read
         calls = []
@@ -639,7 +650,7 @@ def draw_complete_case(cls="Gillespie3D"):
                 n = L(fr, "n") if level == 2 else z3.IntVal(0)
                 if stage == "assume":
                     c.assume(unfold_d(i, j, n))
-                return [L(fr, "r2") >= L(fr, "a_cumul"), L(fr, "a_cumul") == AD(i, j * 6 + n), z3.Not(L(fr, "diff_is_done"))]
+                return [L(fr, "r2") >= L(fr, "a_cumul"), L(fr, "a_cumul") == AD(i, j * W(i) + n), z3.Not(L(fr, "diff_is_done"))]
             return inv
         inv0.update({("DrawAndApplyEvent", 1): outer, ("DrawAndApplyEvent", 2): inner_r, ("DrawAndApplyEvent", 3): inner_d(1),
                      ("DrawAndApplyEvent", 4): inner_d(2)})
@@ -697,6 +708,7 @@ if z3 is not None:
     for _c in GILL:
         CASES += [apply_reaction_case(_c), apply_diffusion_case(_c), draw_case(_c), reaction_prop_case(_c),
                   diffusion_prop_case(_c), compute_propensities_case(_c), iterate_case(_c), iterate_state_case(_c)]
-    CASES += [totals_case("Gillespie3D"), draw_complete_case("Gillespie3D")]
+    CASES += [totals_case("Gillespie3D"), draw_complete_case("Gillespie3D"), totals_case("GillespieGraph"),
+              draw_complete_case("GillespieGraph")]
     for _c in TAU:
         CASES += [reaction_prop_case(_c), diffusion_prop_case(_c), poisson_wrapper_case(_c), compute_nevt_case(_c)]
